@@ -41,17 +41,32 @@ func otherOf(c int) int {
 }
 
 // cfgA is one configuration of the history search; every configuration is a separate BFS.
+// The fields after Ticks are the "redundant / conflicting fields" dimension (harness_a_cfg.go).
 type cfgA struct {
-	Extractor string // header | form | query | param | cookie
+	Extractor string // header | form | query | param | cookie | cookie2 (explicit FromCookie on a cookie that is not the CSRF cookie)
 	Backend   string // storage (injected) | session-direct | session-mw | builtin
 	SingleUse bool
 	Faults    int // 0 or 1 injected storage failure per history
 	Depth     int
 	Ticks     []int // indexes into tickDur this configuration may use
+
+	Explicit   bool   // Config.Extractor is set explicitly (csrf.FromHeader(...), ...); otherwise the extractor comes from KeyLookup
+	Lookup     string // Config.KeyLookup as written; with Explicit it is a left-over (documented: ignored); "" = unset (not Explicit: the canonical spelling for Extractor)
+	CookieName string // Config.CookieName as written ("" = unset)
+	SessOnly   bool   // Config.CookieSessionOnly together with IdleTimeout (documented: cookie expiration ignored)
+	DecoyStore bool   // Config.Storage set next to Config.Session (documented: ignored if Session is set); the decoy answers every Get with a value
+
+	// derived by resolve() before the search
+	CkName    string // the CSRF cookie = the cookie in which a safe request leaves the generated token (observed, not assumed)
+	TokCookie string // name of the cookie the configured extractor reads ("" if it does not read a cookie)
 }
 
 func (c cfgA) name() string {
-	return fmt.Sprintf("%s/%s/singleuse=%v/faults=%d", c.Extractor, c.Backend, c.SingleUse, c.Faults)
+	n := fmt.Sprintf("%s/%s/singleuse=%v/faults=%d", c.Extractor, c.Backend, c.SingleUse, c.Faults)
+	if w := c.wiring(); w != "" {
+		n += "/" + w
+	}
+	return n
 }
 
 type client struct{ Jar, Cur, Prev, Sid string }
@@ -113,7 +128,6 @@ var lookups = map[string]string{"header": "header:X-Csrf-Token", "form": "form:_
 func newSut(c cfgA) *sut {
 	s := &sut{cfg: c, issued: map[string]bool{}}
 	cc := csrf.Config{
-		KeyLookup:      lookups[c.Extractor],
 		IdleTimeout:    idle,
 		SingleUseToken: c.SingleUse,
 		KeyGenerator: func() string {
@@ -128,6 +142,7 @@ func newSut(c cfgA) *sut {
 			return fiber.ErrForbidden
 		},
 	}
+	c.apply(&cc)
 	sgen := func() string { s.nSess++; return fmt.Sprintf("sid-%04d", s.nSess) }
 	app := fiber.New()
 	switch c.Backend {
@@ -145,6 +160,12 @@ func newSut(c cfgA) *sut {
 		cc.Session = session.NewStore(session.Config{Storage: s.st, KeyGenerator: sgen, IdleTimeout: idle})
 	default:
 		core.Fatal("unknown backend %q", c.Backend)
+	}
+	if c.DecoyStore {
+		if cc.Session == nil {
+			core.Fatal("DecoyStore needs a session backend: %s", c.name())
+		}
+		cc.Storage = yesStore{}
 	}
 	protected := func(ctx fiber.Ctx) error {
 		s.reached = true
@@ -207,13 +228,22 @@ func (s *sut) do(method, tok, ck, sid string, del bool, failAt int) obsA {
 			if tok != "" {
 				req.SetBodyString("_csrf=" + tok)
 			}
-		case "cookie":
-			ck = tok
 		}
 	}
 	var cks []string
+	if post && s.cfg.sameSlot() {
+		ck = tok // the extractor reads the CSRF cookie itself
+	}
 	if ck != "" {
-		cks = append(cks, "csrf_="+ck)
+		cks = append(cks, s.cfg.CkName+"="+ck)
+	}
+	if post && tok != "" {
+		if tc := s.cfg.TokCookie; tc != "" && tc != s.cfg.CkName {
+			cks = append(cks, tc+"="+tok)
+		}
+		if dc := s.cfg.decoyCookie(); dc != "" {
+			cks = append(cks, dc+"="+tok) // the cookie a left-over KeyLookup names always agrees with the presented token
+		}
 	}
 	if sid != "" {
 		cks = append(cks, "session_id="+sid)
@@ -243,7 +273,7 @@ func (s *sut) do(method, tok, ck, sid string, del bool, failAt int) obsA {
 		}
 		val := string(c.Value())
 		switch string(c.Key()) {
-		case "csrf_":
+		case s.cfg.CkName:
 			ob.SetCk = &val
 		case "session_id":
 			ob.SetSid = &val
@@ -281,11 +311,11 @@ func (m *model) tick(d time.Duration) {
 }
 
 // allows is the statement's necessary condition for an unsafe request to reach the handler.
-func (m *model) allows(ext, tok, ck string, issued map[string]bool) (bool, string) {
+func (m *model) allows(sameSlot bool, tok, ck string, issued map[string]bool) (bool, string) {
 	switch {
 	case tok == "":
 		return false, "no-token"
-	case ext != "cookie" && tok != ck:
+	case !sameSlot && tok != ck:
 		return false, "token-cookie-mismatch"
 	case !issued[tok]:
 		return false, "not-issued"
@@ -362,7 +392,7 @@ func (rs *runState) step(o opA) stepInfo {
 			rs.m.kill(o.Ck, "deleted")
 		}
 	case 'U':
-		si.P, si.Why = rs.m.allows(rs.cfg.Extractor, o.Tok, o.Ck, rs.s.issued)
+		si.P, si.Why = rs.m.allows(rs.cfg.sameSlot(), o.Tok, o.Ck, rs.s.issued)
 		si.ob = rs.s.do("POST", o.Tok, o.Ck, c.Sid, false, int(o.Fault))
 		if si.ob.Reached && si.P {
 			if rs.cfg.SingleUse {
@@ -539,7 +569,7 @@ func concreteOps(cfg cfgA, st *stateA) []opA {
 		// unsafe requests
 		toks := []struct{ l, v string }{{"own-current", c.Cur}, {"own-previous", c.Prev}, {"other-client's", o.Cur}, {"forged", forged}, {"none", ""}}
 		seen = map[string]bool{}
-		if cfg.Extractor == "cookie" {
+		if cfg.sameSlot() {
 			vals := append(toks, struct{ l, v string }{"own-jar", c.Jar}, struct{ l, v string }{"other-jar", o.Jar})
 			for _, t := range vals {
 				if !seen[t.v] {
@@ -580,7 +610,7 @@ type judgeCtx struct {
 }
 
 func (rs *runState) caseOf(hist []opA, extra string) map[string]any {
-	c := map[string]any{"harness": "A", "config": rs.cfg.name(), "idle_timeout": idle.String(), "history": histStrings(hist)}
+	c := map[string]any{"harness": "A", "config": rs.cfg.name(), "csrf_config": rs.cfg.literal(), "unsafe_request_shape": rs.cfg.requestShape(), "idle_timeout": idle.String(), "history": histStrings(hist)}
 	if extra != "" {
 		c["then"] = extra
 	}
@@ -611,6 +641,10 @@ func (rs *runState) judge(hist []opA, si stepInfo, j *judgeCtx) {
 	l := j.l
 	cfg := rs.cfg
 	faultHere := o.Fault >= 0
+	sfx := cfg.sigSuffix()
+	add := func(sig, what string, cs, observed, expected any) {
+		j.col.add(j.ord, sig+sfx, what, cs, observed, expected)
+	}
 	switch o.Kind {
 	case 'T':
 		l.Outcome("A tick")
@@ -620,7 +654,7 @@ func (rs *runState) judge(hist []opA, si stepInfo, j *judgeCtx) {
 			if faultHere {
 				l.Add("unspecified_skipped", 1)
 			} else {
-				j.col.add(j.ord, fmt.Sprintf("A safe-request-rejected kind=delete backend=%s extractor=%s", cfg.Backend, cfg.Extractor),
+				add(fmt.Sprintf("A safe-request-rejected kind=delete backend=%s extractor=%s", cfg.Backend, cfg.Extractor),
 					"a safe-method request did not reach the handler", rs.caseOf(hist, ""), si.ob, "safe methods always pass")
 			}
 		}
@@ -631,18 +665,18 @@ func (rs *runState) judge(hist []opA, si stepInfo, j *judgeCtx) {
 		var pob obsA
 		if si.ob.Reached && si.ob.SetCk != nil && *si.ob.SetCk != "" {
 			v := *si.ob.SetCk
-			probeP, _ = rs.m.allows(cfg.Extractor, v, v, rs.s.issued)
+			probeP, _ = rs.m.allows(cfg.sameSlot(), v, v, rs.s.issued)
 			pob = rs.s.do("POST", v, v, rs.cl[o.Cl].Sid, false, -1)
 			probeReached = pob.Reached
 			l.Add("A.probes", 1)
 			if probeReached && !probeP && rs.faultUsed && !faultHere {
-				_, why := rs.m.allows(cfg.Extractor, v, v, rs.s.issued)
-				j.col.add(j.ord, fmt.Sprintf("A dead-token-accepted-after-ignored-store-fault why=%s failed=%s backend=%s", why, rs.faultCall, cfg.Backend),
+				_, why := rs.m.allows(cfg.sameSlot(), v, v, rs.s.issued)
+				add(fmt.Sprintf("A dead-token-accepted-after-ignored-store-fault why=%s failed=%s backend=%s", why, rs.faultCall, cfg.Backend),
 					"an unsafe request reached the handler with a token that is "+why+"; an earlier storage failure was swallowed by the middleware",
 					rs.caseOf(hist, "probe: POST presenting the cookie's token as token and cookie"), pob, "rejected ("+why+")")
 			} else if probeReached && !probeP {
-				_, why := rs.m.allows(cfg.Extractor, v, v, rs.s.issued)
-				j.col.add(j.ord, fmt.Sprintf("A safe-request-revalidated-dead-token why=%s backend=%s extractor=%s", why, cfg.Backend, cfg.Extractor),
+				_, why := rs.m.allows(cfg.sameSlot(), v, v, rs.s.issued)
+				add(fmt.Sprintf("A safe-request-revalidated-dead-token why=%s backend=%s extractor=%s", why, cfg.Backend, cfg.Extractor),
 					"after a safe request the cookie carries a token that is not live (never issued / expired / consumed / deleted) and an unsafe request presenting it reaches the handler",
 					rs.caseOf(hist, "probe: POST presenting the cookie's token as token and cookie"), pob, "rejected")
 			}
@@ -653,7 +687,7 @@ func (rs *runState) judge(hist []opA, si stepInfo, j *judgeCtx) {
 				l.Add("unspecified_skipped", 1) // over-determined by the statement: either clause satisfied
 				l.Add("A.safe_with_fault_one_clause_satisfied", 1)
 			} else {
-				j.col.add(j.ord, fmt.Sprintf("A store-fault-ignored req=safe backend=%s failed=%s", cfg.Backend, si.ob.Failed),
+				add(fmt.Sprintf("A store-fault-ignored req=safe backend=%s failed=%s", cfg.Backend, si.ob.Failed),
 					"a storage call failed during a safe request; the request was neither rejected nor did it leave a valid token cookie (the cookie's token is not accepted afterwards)",
 					rs.caseOf(hist, "probe: POST presenting the cookie's token as token and cookie"), map[string]any{"safe_request": si.ob, "probe": pob},
 					"either rejected (token store failed) or passes and leaves a valid token cookie")
@@ -662,16 +696,16 @@ func (rs *runState) judge(hist []opA, si stepInfo, j *judgeCtx) {
 		}
 		switch {
 		case !si.ob.Reached:
-			j.col.add(j.ord, fmt.Sprintf("A safe-request-rejected kind=get backend=%s extractor=%s", cfg.Backend, cfg.Extractor),
+			add(fmt.Sprintf("A safe-request-rejected kind=get backend=%s extractor=%s", cfg.Backend, cfg.Extractor),
 				"a safe-method request did not reach the handler", rs.caseOf(hist, ""), si.ob, "safe methods always pass")
 		case !static && rs.faultUsed && kind == "kept-dead":
 			// consequence of an earlier swallowed storage failure; reported through the probe above
 		case !static:
-			j.col.add(j.ord, fmt.Sprintf("A safe-request-left-no-valid-cookie cookie=%s backend=%s extractor=%s singleuse=%v", kind, cfg.Backend, cfg.Extractor, cfg.SingleUse),
+			add(fmt.Sprintf("A safe-request-left-no-valid-cookie cookie=%s backend=%s extractor=%s singleuse=%v", kind, cfg.Backend, cfg.Extractor, cfg.SingleUse),
 				"after a safe request the CSRF cookie is missing, expired, or carries a token that is neither the presented live token nor one generated for this request",
 				rs.caseOf(hist, ""), si.ob, "Set-Cookie csrf_ = live presented token or freshly generated token")
 		case !probeReached:
-			j.col.add(j.ord, fmt.Sprintf("A safe-request-cookie-token-not-accepted backend=%s extractor=%s singleuse=%v", cfg.Backend, cfg.Extractor, cfg.SingleUse),
+			add(fmt.Sprintf("A safe-request-cookie-token-not-accepted backend=%s extractor=%s singleuse=%v", cfg.Backend, cfg.Extractor, cfg.SingleUse),
 				"the token left in the cookie by a safe request is not valid: an unsafe request presenting it right away is rejected",
 				rs.caseOf(hist, "probe: POST presenting the cookie's token as token and cookie"), map[string]any{"safe_request": si.ob, "probe": pob}, "valid token cookie")
 		}
@@ -684,8 +718,14 @@ func (rs *runState) judge(hist []opA, si stepInfo, j *judgeCtx) {
 		switch {
 		case si.ob.Reached && si.P:
 			l.Add("A.agree_pass", 1)
+			if sfx != "" {
+				l.Add("A.rcf.agree_pass", 1)
+			}
 		case !si.ob.Reached && !si.P:
 			l.Add("A.agree_reject", 1)
+			if sfx != "" {
+				l.Add("A.rcf.agree_reject."+si.Why, 1)
+			}
 		case !si.ob.Reached && si.P:
 			if faultHere {
 				l.Add("A.rejected_on_store_fault", 1)
@@ -697,17 +737,17 @@ func (rs *runState) judge(hist []opA, si stepInfo, j *judgeCtx) {
 		}
 		if si.ob.Reached && !si.P {
 			if rs.faultUsed && !faultHere {
-				j.col.add(j.ord, fmt.Sprintf("A dead-token-accepted-after-ignored-store-fault why=%s failed=%s backend=%s", si.Why, rs.faultCall, cfg.Backend),
+				add(fmt.Sprintf("A dead-token-accepted-after-ignored-store-fault why=%s failed=%s backend=%s", si.Why, rs.faultCall, cfg.Backend),
 					"an unsafe request reached the handler with a token that is "+si.Why+"; an earlier storage failure was swallowed by the middleware",
 					rs.caseOf(hist, ""), si.ob, "rejected ("+si.Why+")")
 			} else {
-				j.col.add(j.ord, fmt.Sprintf("A unsafe-passed-without-live-token why=%s extractor=%s backend=%s singleuse=%v", si.Why, cfg.Extractor, cfg.Backend, cfg.SingleUse),
+				add(fmt.Sprintf("A unsafe-passed-without-live-token why=%s extractor=%s backend=%s singleuse=%v", si.Why, cfg.Extractor, cfg.Backend, cfg.SingleUse),
 					"an unsafe request reached the protected handler although the statement's condition fails: "+si.Why,
 					rs.caseOf(hist, ""), si.ob, "rejected ("+si.Why+")")
 			}
 		}
 		if si.ob.Reached && faultHere {
-			j.col.add(j.ord, fmt.Sprintf("A store-fault-ignored req=unsafe backend=%s failed=%s", cfg.Backend, si.ob.Failed),
+			add(fmt.Sprintf("A store-fault-ignored req=unsafe backend=%s failed=%s", cfg.Backend, si.ob.Failed),
 				"a storage call failed while an unsafe request was processed, yet the request reached the protected handler",
 				rs.caseOf(hist, ""), si.ob, "if the token store fails the request is rejected")
 		}
@@ -793,10 +833,13 @@ type bfsResult struct {
 	States, Transitions, MaxDepth int
 	PerLevel                      []int
 	Capped                        bool
+	CkName                        string
 }
 
 func bfs(r *core.Run, col *collector, cfg cfgA, cfgIdx int, samples *[]any) bfsResult {
 	var res bfsResult
+	cfg = resolve(cfg)
+	res.CkName = cfg.CkName
 	init := &stateA{}
 	{
 		rs := newRunState(cfg)
@@ -923,22 +966,34 @@ func runA(r *core.Run, col *collector, samples *[]any, only string) map[string]a
 	for _, ext := range []string{"header", "form", "query", "param", "cookie"} {
 		for _, su := range []bool{false, true} {
 			cfgs = append(cfgs,
-				cfgA{ext, "storage", su, 0, d(nq[ext], 7), all},
-				cfgA{ext, "storage", su, 1, d(fq[ext], 5), all},
+				cfgA{Extractor: ext, Backend: "storage", SingleUse: su, Faults: 0, Depth: d(nq[ext], 7), Ticks: all},
+				cfgA{Extractor: ext, Backend: "storage", SingleUse: su, Faults: 1, Depth: d(fq[ext], 5), Ticks: all},
 			)
 		}
 	}
 	for _, ext := range []string{"header", "cookie", "form"} {
 		for _, su := range []bool{false, true} {
 			cfgs = append(cfgs,
-				cfgA{ext, "session-direct", su, 0, d(sq[ext], 6), all},
-				cfgA{ext, "session-direct", su, 1, d(3, 4), all},
-				cfgA{ext, "session-mw", su, 0, d(sq[ext], 6), []int{1}},
+				cfgA{Extractor: ext, Backend: "session-direct", SingleUse: su, Faults: 0, Depth: d(sq[ext], 6), Ticks: all},
+				cfgA{Extractor: ext, Backend: "session-direct", SingleUse: su, Faults: 1, Depth: d(3, 4), Ticks: all},
+				cfgA{Extractor: ext, Backend: "session-mw", SingleUse: su, Faults: 0, Depth: d(sq[ext], 6), Ticks: []int{1}},
 			)
 		}
 	}
 	for _, su := range []bool{false, true} {
-		cfgs = append(cfgs, cfgA{"header", "builtin", su, 0, d(3, 3), nil})
+		cfgs = append(cfgs, cfgA{Extractor: "header", Backend: "builtin", SingleUse: su, Faults: 0, Depth: d(3, 3)})
+	}
+	nCanonical := len(cfgs)
+	// redundant / conflicting fields (harness_a_cfg.go)
+	cfgs = append(cfgs, rcfConfigs(d(3, 4), d(3, 4), all)...)
+	{
+		names := map[string]bool{}
+		for _, c := range cfgs {
+			if names[c.name()] {
+				core.Fatal("duplicate configuration %s", c.name())
+			}
+			names[c.name()] = true
+		}
 	}
 	per := map[string]any{}
 	tot := bfsResult{}
@@ -995,7 +1050,7 @@ func runA(r *core.Run, col *collector, samples *[]any, only string) map[string]a
 		if res.MaxDepth > tot.MaxDepth {
 			tot.MaxDepth = res.MaxDepth
 		}
-		per[c.name()] = map[string]any{"depth_bound": c.Depth, "states": res.States, "transitions": res.Transitions, "max_depth": res.MaxDepth, "states_per_level": res.PerLevel}
+		per[c.name()] = map[string]any{"csrf_cookie_observed": res.CkName, "depth_bound": c.Depth, "states": res.States, "transitions": res.Transitions, "max_depth": res.MaxDepth, "states_per_level": res.PerLevel}
 		r.Add("A.states", int64(res.States))
 		r.Add("A.transitions", int64(res.Transitions))
 		if res.Capped {
@@ -1015,6 +1070,9 @@ func runA(r *core.Run, col *collector, samples *[]any, only string) map[string]a
 			"depth_storage_nofault": d(5, 7), "depth_storage_nofault_form_query_param": d(4, 7), "depth_storage_fault_header": d(4, 5), "depth_storage_fault_others": d(3, 5),
 			"depth_session": d(4, 6), "depth_session_form": d(3, 6), "depth_session_fault": d(3, 4), "depth_builtin": 3,
 			"max_injected_failures_per_history": 1,
+			"canonical_configs":                 nCanonical, "redundant_conflicting_field_configs": len(cfgs) - nCanonical, "depth_redundant_conflicting": d(3, 4),
+			"leftover_keylookups_next_to_explicit_extractor": leftoverLookups, "explicit_extractors": []string{"header", "form", "query", "param", "cookie (the CSRF cookie)", "cookie2 (another cookie)"},
+			"cookie_names": []string{"unset", "csrf_ (explicit default)", "xsrf"}, "other_ignored_fields": []string{"Storage next to Session (decoy answering every Get)", "CookieSessionOnly next to IdleTimeout"},
 		},
 		"time_sources": "storage backend: expiry decided only by Storage.Get/Set(exp) -> owned by the injected storage's virtual clock; the cookie Expires attribute uses time.Now() (client side, not judged). session backend: sessionManager stamps Token.Expiration with time.Now() and compares with time.Now() (wall clock, not ownable) - only the session entry's storage expiry is owned, therefore session-mw configurations tick by idle+1s only. built-in memory storage: utils.Timestamp() wall clock - no ticks",
 	}
